@@ -19,7 +19,7 @@ table = json.load(open(f'{V}/tools/seed_table.json'))
 args = [a for a in sys.argv[1:] if not a.startswith('--')]
 tier = sys.argv[sys.argv.index('--tier') + 1] if '--tier' in sys.argv else 'quick'
 jobs = int(sys.argv[sys.argv.index('--jobs') + 1]) if '--jobs' in sys.argv else 5
-ids = [a for a in args if a in table] or sorted(table)
+ids = [a for a in args if a in table or a[-1] in 'EF'] or sorted(table)
 head = subprocess.run(['git', '-C', '/repo', 'rev-parse', '--short', 'HEAD'], capture_output=True, text=True).stdout.strip()
 
 
@@ -33,13 +33,16 @@ def one(sid):
     if tag in ('C', 'D'):      # round 2: A -> C, B -> D
         src = f'{SRC}2/seed-{pid}'
         tag = {'C': 'A', 'D': 'B'}[tag]
+    if tag in ('E', 'F'):      # round 3: A -> E, B -> F
+        src = f'{SRC}3/seed-{pid}'
+        tag = {'E': 'A', 'F': 'B'}[tag]
     patch = next(p for p in (f'{src}/patch_{tag}.ported.diff', f'{src}/patch_{tag}.diff') if os.path.exists(p))
     demo = next(p for p in (f'{src}/demo_{tag}.ported.py', f'{src}/demo_{tag}.py') if os.path.exists(p))
     wt = f'/tmp/wt-seed-{sid}'
     sh(f'git -C /repo worktree remove --force {wt}')
     r = sh(f'git -C /repo worktree add --detach {wt} HEAD')
     res = {'id': sid, 'property': pid, 'repo_head': head, 'patch_source': os.path.basename(patch)}
-    res.update(table[sid])
+    res.update(table.get(sid, {'what': '(see notes.md)', 'needs': '(see notes.md)', 'round': 3}))
     rebased = ''
     try:
         env = dict(os.environ, PYTHONPATH=wt, PYTHONDONTWRITEBYTECODE='1')
